@@ -10,7 +10,7 @@ def exh_cases(n, lo, hi, M, inits):
     for v in range(lo, hi):
         pat = format(v, f"0{n}b") if n else ""
         for k, p in enumerate(params):
-            yield {"pat": pat, "p": p, "kind": tok.KINDS[(v + k) % 3],
+            yield {"pat": pat, "p": p, "kind": tok.KINDS[(v + k) % len(tok.KINDS)],
                    "deliv": tok.DELIVS[(v // 3 + k) % 3]}
 
 
